@@ -443,6 +443,15 @@ pub fn list_files() -> Vec<(String, usize)> {
     l.sys().model.live.visible().into_iter().map(|(p, c)| (p, c.len())).collect()
 }
 
+/// A real (wall-clock) pause, bypassing the simulated `nanosleep`: used only by scenarios that have to
+/// wait for a free-running helper thread of the system under test to reach a blocking point.
+pub fn real_sleep_ms(ms: u64) {
+    let ts = libc::timespec { tv_sec: (ms / 1000) as libc::time_t, tv_nsec: ((ms % 1000) * 1_000_000) as libc::c_long };
+    unsafe {
+        syscall6(SYS_NANOSLEEP, &ts as *const libc::timespec as i64, 0, 0, 0, 0, 0);
+    }
+}
+
 // clock -----------------------------------------------------------------------------------------
 
 pub fn advance_ns(ns: u64) {
